@@ -161,6 +161,19 @@ func buildCatalogue() []item {
 			return append(out, tc, c[len(c)-1])
 		})
 	})
+	// the chain ends in a self-signed X.509 version 1 certificate (no extensions:
+	// no basic constraints, no key usage) with the root's name and key
+	add("root-is-x509-version-1", false, rootOnly, func(d *desc, pos int) {
+		spec := d.specs[pos]
+		d.post = append(d.post, func(c []*x509.Certificate) []*x509.Certificate {
+			v1, err := pki.V1RootNamed(spec.Key, c[len(c)-1].RawSubject)
+			if err != nil {
+				return c
+			}
+			out := append([]*x509.Certificate{}, c[:len(c)-1]...)
+			return append(out, v1)
+		})
+	})
 	add("root-missing", false, rootOnly, func(d *desc, pos int) {
 		d.post = append(d.post, func(c []*x509.Certificate) []*x509.Certificate { return c[:len(c)-1] })
 	})
@@ -236,6 +249,9 @@ func buildCatalogue() []item {
 	add("leaf-ku-not-critical", false, csLeaf, func(d *desc, pos int) { d.specs[0].KUNotCritical = true })
 	add("leaf-ku-not-critical", true, tsLeaf, func(d *desc, pos int) { d.specs[0].KUNotCritical = true })
 	add("leaf-ku-no-digitalsignature", false, leafOnly, func(d *desc, pos int) { d.specs[0].KU = 0 })
+	// contentCommitment WITHOUT digitalSignature: whatever one thinks of the bit
+	// next to digitalSignature (DESIGN 7), alone it is no digital-signature usage
+	add("leaf-ku-contentcommitment-only", false, leafOnly, func(d *desc, pos int) { d.specs[0].KU = x509.KeyUsageContentCommitment })
 	for _, b := range []struct {
 		n string
 		k x509.KeyUsage
@@ -517,6 +533,17 @@ func execute(r *core.Run, c *Case, routes bool) {
 		return
 	}
 	r.Count("revocation-route", 1)
+	// the same through validators with all-default transports (these chains name
+	// no responders or distribution points: nothing is contacted); the
+	// code-signing one is always created first, the timestamping one second
+	vd := defaultValidator(pur)
+	rs, rerr = vd.ValidateContext(context.Background(), revocation.ValidateContextOptions{CertChain: certs})
+	r.Eval(1)
+	if refNoTime != (rerr == nil) || (rerr != nil && (!sims.IsInvalidChain(rerr) || rs != nil)) {
+		r.Violation("revocation-validator-default-transports:"+sigOf(c, rerr == nil, refNoTime), fmt.Sprintf("%s: a revocation validator with default transports for this purpose returned err=%v, the reference predicate says %v", c.desc(), rerr, refNoTime), c)
+		return
+	}
+	r.Count("revocation-route-default-transports", 1)
 	if c.TS || len(certs) == 0 {
 		return
 	}
@@ -592,6 +619,24 @@ var (
 	valMu sync.Mutex
 	vals  = map[purpose.Purpose]revocation.Validator{}
 )
+
+var defVals map[purpose.Purpose]revocation.Validator
+
+func defaultValidator(p purpose.Purpose) revocation.Validator {
+	valMu.Lock()
+	defer valMu.Unlock()
+	if defVals == nil {
+		defVals = map[purpose.Purpose]revocation.Validator{}
+		for _, q := range []purpose.Purpose{purpose.CodeSigning, purpose.Timestamping} {
+			v, err := revocation.NewWithOptions(revocation.Options{CertChainPurpose: q})
+			if err != nil {
+				panic(err)
+			}
+			defVals[q] = v
+		}
+	}
+	return defVals[p]
+}
 
 func sharedValidator(p purpose.Purpose) revocation.Validator {
 	valMu.Lock()
